@@ -18,7 +18,9 @@ RULE = ('entropy of 16/20/24/28/32 bytes (all-zero, all-ones, 1-8 leading zero b
         'a valid sentence replaced by another list word, half of the cases steered by the reference to a replacement '
         'that keeps the checksum valid (must be accepted with the new entropy) and half arbitrary (rejected iff the '
         'reference rejects); unknown words: word of another list, upper-cased word, 4-letter prefix, ASCII junk, '
-        'must be rejected by to_entropy and to_seed. Non-trivial = non-English list, entropy with a leading zero '
+        'must be rejected by to_entropy and to_seed. Shared-word sentences: entropies constructed so that every '
+        'word of the sentence also occurs in a second bundled list (dutch/english/french, the two chinese lists), '
+        'decoded by the instance of their own language. Non-trivial = non-English list, entropy with a leading zero '
         'byte, non-ASCII passphrase, or any substitution/unknown-word case; distinct by all case fields.')
 ASSUMPTIONS = ['ref/wordlists are the nine BIP39 lists as bundled at the baseline commit (compared byte for byte with '
                'the tree under test at the start of every run)',
@@ -393,6 +395,65 @@ def passphrases():
                      st.text(alphabet=st.characters(min_codepoint=0x20, max_codepoint=0x7e), min_size=1, max_size=16))
 
 
+_SHARED = {}
+
+
+def shared_indices(lang, other):
+    """indices (in lang's list) of the words that also occur in other's list"""
+    from ref import bip39
+    key = (lang, other)
+    if key not in _SHARED:
+        theirs = set(bip39.wordlist(other))
+        _SHARED[key] = [i for i, w in enumerate(bip39.wordlist(lang)) if w in theirs]
+    return _SHARED[key]
+
+
+def shared_pairs(minimum=60):
+    return [(a, b) for a in LANGS for b in LANGS if a != b and len(shared_indices(a, b)) >= minimum]
+
+
+def shared_entropy(lang, other, n_bytes, picks, start):
+    """entropy whose sentence in `lang` consists only of words that `other` has too (an ambiguous sentence: a
+    language detector that counts hits sees a tie). None if the search for a fitting last word fails."""
+    from ref.hashes import sha256
+    sh = shared_indices(lang, other)
+    shset = set(sh)
+    ent_bits = n_bytes * 8
+    cs = ent_bits // 32
+    n = (ent_bits + cs) // 11
+    head = 0
+    for k in range(n - 1):
+        head = (head << 11) | sh[picks[k % len(picks)] % len(sh)]
+    free = 11 - cs
+    for d in range(1 << free):
+        tail = (start + d) % (1 << free)
+        ent = ((head << free) | tail).to_bytes(n_bytes, 'big')
+        last = (tail << cs) | (sha256(ent)[0] >> (8 - cs))
+        if last in shset:
+            return ent
+    return None
+
+
+def shared_strategy():
+    from hypothesis import strategies as st
+    from vlib import gen
+    pairs = shared_pairs()
+
+    def build(t):
+        pair, nb, picks, start, pw, opts, form = t
+        ent = shared_entropy(pair[0], pair[1], nb, picks, start)
+        if ent is None:
+            ent = bytes(nb)
+        return {'kind': 'entropy', 'lang': pair[0], 'entropy': ent.hex(), 'input': 'bytes', 'form': form,
+                'passphrase': pw, 'opts': sorted(opts), 'shared_with': pair[1]}
+    return st.tuples(st.sampled_from(pairs), st.sampled_from([16, 16, 20, 24, 28, 32]),
+                     st.lists(st.integers(0, 4095), min_size=3, max_size=24), st.integers(0, 255),
+                     # (not through the default instance: for an instance of another language the sentence is
+                     # genuinely ambiguous)
+                     passphrases(), st.sets(st.sampled_from(['reparse']), max_size=1),
+                     st.sampled_from(['lib', 'nfc'])).map(build)
+
+
 def entropy_strategy():
     from hypothesis import strategies as st
     from vlib import gen
@@ -510,6 +571,13 @@ def run(ctx):
             ctx.sample(case)
         check_entropy(ctx, case)
     ctx.run_given('entropy', entropy_strategy(), prop_entropy, ctx.scale(100, 2000))
+
+    # sentences made only of words that a second bundled list contains too (language detection sees a tie)
+    def prop_shared(case):
+        ctx.nt(('shared', case['lang'], case['shared_with'], case['entropy'], case['form'], tuple(case['opts'])))
+        ctx.klass('shared_words.%s~%s' % (case['lang'], case['shared_with']))
+        check_entropy(ctx, case)
+    ctx.run_given('shared_words', shared_strategy(), prop_shared, ctx.scale(12, 400))
 
     def prop_subst(case):
         ctx.nt(('subst', case))
